@@ -110,6 +110,21 @@ fn ctor_cases(o: &mut Out, x: i64) {
     // TryFrom<i64> is from_i64
     o.c(format!("ZbFromI64 {} {}", z(x as i128), res_zb(catch(|| ZatBalance::try_from(x)))));
 }
+fn nres_zb(r: Option<ZatBalance>) -> String {
+    match r { None => PANIC.into(), Some(v) => ok(z(zb(v))) }
+}
+fn nres_zt(r: Option<Zatoshis>) -> String {
+    match r { None => PANIC.into(), Some(v) => ok(z(zt(v))) }
+}
+fn bl(b: bool) -> &'static str { if b { "true" } else { "false" } }
+/// `const fn` constructors: `assert!` on the range, observed through catch_unwind.
+fn const_i_cases(o: &mut Out, x: i64) {
+    o.c(format!("ZbConstFromI64 {} {}", z(x as i128), nres_zb(catch(|| ZatBalance::const_from_i64(x)))));
+}
+fn const_u_cases(o: &mut Out, x: u64) {
+    o.c(format!("ZbConstFromU64 {} {}", zu(x as u128), nres_zb(catch(|| ZatBalance::const_from_u64(x)))));
+    o.c(format!("ZatConstFromU64 {} {}", zu(x as u128), nres_zt(catch(|| Zatoshis::const_from_u64(x)))));
+}
 fn uctor_cases(o: &mut Out, x: u64) {
     o.c(format!("ZbFromU64 {} {}", zu(x as u128), res_zb(catch(|| ZatBalance::from_u64(x)))));
     o.c(format!("ZatFromU64 {} {}", zu(x as u128), res_zt(catch(|| Zatoshis::from_u64(x)))));
@@ -146,6 +161,8 @@ fn unary_zb(o: &mut Out, a: ZatBalance) {
     o.c(format!("ZbTryIntoU64 {} {}", av, match catch(|| u64::try_from(a)) {
         None => PANIC.into(), Some(Ok(v)) => ok(zu(v as u128)), Some(Err(e)) => be(e) }));
     o.c(format!("ZatTryFromZb {} {}", av, res_zt(catch(|| Zatoshis::try_from(a)))));
+    o.c(format!("ZbIsPositive {} {}", av, bl(a.is_positive())));
+    o.c(format!("ZbIsNegative {} {}", av, bl(a.is_negative())));
 }
 fn unary_zt(o: &mut Out, t: Zatoshis) {
     let tv = z(zt(t));
@@ -156,6 +173,8 @@ fn unary_zt(o: &mut Out, t: Zatoshis) {
     t.write(&mut w).unwrap();
     o.c(format!("ZatWrite {} {}", tv, zlist(&w)));
     o.c(format!("ZatNeg {} {}", tv, match catch(|| -t) { None => PANIC.into(), Some(v) => ok(z(zb(v))) }));
+    o.c(format!("ZatIsZero {} {}", tv, bl(t.is_zero())));
+    o.c(format!("ZatIsPositive {} {}", tv, bl(t.is_positive())));
 }
 fn bin_zb(o: &mut Out, a: ZatBalance, b: ZatBalance) {
     let (av, bv) = (z(zb(a)), z(zb(b)));
@@ -207,8 +226,8 @@ fn main() {
     let zts: Vec<Zatoshis> = ul.iter().filter_map(|x| catch(|| Zatoshis::from_u64(*x).ok()).flatten()).collect();
 
     // --- exhaustive over the boundary lattice --------------------------------------------
-    for x in &il { ctor_cases(&mut o, *x); }
-    for x in &ul { uctor_cases(&mut o, *x); }
+    for x in &il { ctor_cases(&mut o, *x); const_i_cases(&mut o, *x); }
+    for x in &ul { uctor_cases(&mut o, *x); const_u_cases(&mut o, *x); }
     for x in &il {
         let b = x.to_le_bytes();
         bytes_cases(&mut o, b);
@@ -282,6 +301,8 @@ fn main() {
         let u = rand_u64(&mut r);
         ctor_cases(&mut o, x);
         uctor_cases(&mut o, u);
+        const_i_cases(&mut o, x);
+        const_u_cases(&mut o, u);
         bytes_cases(&mut o, r.u64().to_le_bytes());
         bytes_cases(&mut o, x.to_le_bytes());
         let a1 = ZatBalance::from_i64(((r.below(2 * MAX_MONEY + 1)) as i64) - m).unwrap();
